@@ -14,3 +14,13 @@ Proof.
   apply existsb_exists in H. destruct H as (x & Hin & Hp). apply andb_true_iff in Hp as [Hn Hk].
   exists x. split; [exact Hin|]. split; [apply str_eqb_eq; exact Hn | apply negb_true_iff; exact Hk].
 Qed.
+
+(* reading of the boolean sweeps, generic in the list (no computation at Qed time) *)
+Lemma sweep_spec (f : site -> mode -> rty -> bool) (l : list rty) :
+  sweep f l = true -> forall t, In t l -> forall s md, f s md t = true.
+Proof.
+  unfold sweep. intros H t Ht s md. rewrite forallb_forall in H. specialize (H t Ht).
+  rewrite forallb_forall in H. assert (Hs : In s sites_all) by (destruct s; simpl; tauto).
+  specialize (H s Hs). rewrite forallb_forall in H.
+  assert (Hm : In md modes_all) by (destruct md; simpl; tauto). exact (H md Hm).
+Qed.
